@@ -232,10 +232,11 @@ class C17(Spec):
                 k = 3 + i % 5
                 cs.append(mixed_case(rng, f'mixed{i}', k, rng.choice([6, 8, 14, 30, 60, 120, 250]), 2500, waves=4))
             for i in range(8 * boost):
-                cs.append(grow_case(rng, f'grow{i}', 3 + i % 4, rng.choice([500, 1500, 3000, 6000]), every=rng.choice([1, 3, 17])))
+                nid = rng.choice([500, 1500, 3000, 6000])
+                cs.append(grow_case(rng, f'grow{i}', 3 + i % 4, nid, every=max(rng.choice([1, 3, 17]), nid // 150)))
             cs.append(grow_case(rng, 'growbig0', 6, 6500, every=97))
-            cs.append(grow_case(rng, 'growbig1', 4, 40000, every=997, kills=False))
-            cs.append(grow_case(rng, 'growbig2', 5, 60000, every=4999, kills=False))
+            cs.append(grow_case(rng, 'growbig1', 4, 20000, every=499, kills=False))
+            cs.append(grow_case(rng, 'growbig2', 5, 30000, every=2999, kills=False))
             if boost == 1: cs += ideal_cases(10 ** 7, chunk=10 ** 6)
         return cs
     def nontrivial_items(self, case, c_out, m_out):
